@@ -35,6 +35,7 @@
    The score values are goals over R (`ml_goal`, `ml_closed_goal`, `loo_goal`,
    `loo_refit_goal`) built from the exact rationals `sel_*` below. *)
 From Coq Require Import List QArith Qabs Bool Arith Reals Qreals.
+From Bignums Require Import BigQ.
 From Interval Require Import Tactic.
 From IT Require Import Matrix.MxOps Matrix.ListOps Matrix.BigOps Matrix.GpModel Matrix.Selection.
 From IT Require Import RealModel.SelectionValue.
@@ -66,14 +67,15 @@ Fixpoint close_vec (tol : Q) (a b : qvec) : bool :=
   | _, _ => false
   end.
 
-(* ---- everything the model computes for one case, on the executable instance E ---- *)
+(* ---- everything the model computes for one case, on the executable instance E; the
+   results are kept as bigQ (Matrix/BigOps.v) and compared there ------------------------ *)
 Record sel_out := SelOut {
   x_ok : bool;                                 (* the three inverses passed their verification *)
-  x_lmu : qvec; x_lvar : qvec;                 (* loo_mu (with gp_alpha), loo_var *)
-  x_q1 : Q; x_q2 : Q; x_q3 : Q;                (* ml_quad, mlg_quad, quad_closed *)
-  x_ml_gmean : qvec; x_ml_gmean_closed : qvec; (* (alpha*dmu).sum() ; alpha^T dmu with the exact A^-1 *)
-  x_ml_gcov : qvec; x_ml_gtrace : qvec;        (* 0.5 (Q*dK.T).sum() ; trace form with the exact A^-1 *)
-  x_loo_gmean : qvec; x_loo_gcov : qvec
+  x_lmu : bvec; x_lvar : bvec;                 (* loo_mu (with gp_alpha), loo_var *)
+  x_q1 : bigQ; x_q2 : bigQ; x_q3 : bigQ;       (* ml_quad, mlg_quad, quad_closed *)
+  x_ml_gmean : bvec; x_ml_gmean_closed : bvec; (* (alpha*dmu).sum() ; alpha^T dmu with the exact A^-1 *)
+  x_ml_gcov : bvec; x_ml_gtrace : bvec;        (* 0.5 (Q*dK.T).sum() ; trace form with the exact A^-1 *)
+  x_loo_gmean : bvec; x_loo_gcov : bvec
 }.
 
 Section OnInstance.
@@ -84,17 +86,17 @@ Definition sel_outputs (c : sel_case) : sel_out :=
   let L := s_L c in
   let y := einj E n 1 (col_of (s_y c)) in let mu := einj E n 1 (col_of (s_mu c)) in
   let Li := @minv E n (einj E n n L) in
-  let LiQ := eprj E n n Li in
+  let LiQ := eprjQ E n n Li in
   let LTiQ := qinv_checked n (qtr n n L) (qtr n n LiQ) in    (* (L^T)^-1, verified by L^T X = I *)
   let LTi := einj E n n LTiQ in
   let Ai := @minv E n (einj E n n (s_A c)) in
   let alpha := @gp_alpha_s E n Li LTi y mu in
-  let e11 (X : mx E 1 1) := entry11 (eprj E 1 1 X) in
+  let e11 (X : mx E 1 1) := bentry11 (eprj E 1 1 X) in
   let dmus := map (fun v => einj E n 1 (col_of v)) (s_dmu c) in
   let dKs := map (einj E n n) (s_dK c) in
-  {| x_ok := shape_ok n n LiQ && shape_ok n n LTiQ && shape_ok n n (eprj E n n Ai) && negb (Nat.eqb n 0);
-     x_lmu := col_to_vec (eprj E n 1 (@loo_mu_s E n Li alpha y));
-     x_lvar := col_to_vec (eprj E n 1 (@loo_var_s E n Li));
+  {| x_ok := shape_ok n n LiQ && shape_ok n n LTiQ && shape_ok n n (eprjQ E n n Ai) && negb (Nat.eqb n 0);
+     x_lmu := bcol_to_vec (eprj E n 1 (@loo_mu_s E n Li alpha y));
+     x_lvar := bcol_to_vec (eprj E n 1 (@loo_var_s E n Li));
      x_q1 := e11 (@ml_quad_s E n Li y mu);
      x_q2 := e11 (@mlg_quad_s E n Li y mu);
      x_q3 := e11 (@quad_closed_s E n Ai y mu);
@@ -107,14 +109,13 @@ Definition sel_outputs (c : sel_case) : sel_out :=
 
 End OnInstance.
 
-Definition eq_vec (a b : qvec) : bool := close_vec 0 a b.
 (* the two executable instances agree EXACTLY on every model output *)
 Definition out_eqb (a b : sel_out) : bool :=
-  Bool.eqb (x_ok a) (x_ok b) && eq_vec (x_lmu a) (x_lmu b) && eq_vec (x_lvar a) (x_lvar b)
-  && Qeq_bool (x_q1 a) (x_q1 b) && Qeq_bool (x_q2 a) (x_q2 b) && Qeq_bool (x_q3 a) (x_q3 b)
-  && eq_vec (x_ml_gmean a) (x_ml_gmean b) && eq_vec (x_ml_gmean_closed a) (x_ml_gmean_closed b)
-  && eq_vec (x_ml_gcov a) (x_ml_gcov b) && eq_vec (x_ml_gtrace a) (x_ml_gtrace b)
-  && eq_vec (x_loo_gmean a) (x_loo_gmean b) && eq_vec (x_loo_gcov a) (x_loo_gcov b).
+  Bool.eqb (x_ok a) (x_ok b) && beq_vec (x_lmu a) (x_lmu b) && beq_vec (x_lvar a) (x_lvar b)
+  && BigQ.eq_bool (x_q1 a) (x_q1 b) && BigQ.eq_bool (x_q2 a) (x_q2 b) && BigQ.eq_bool (x_q3 a) (x_q3 b)
+  && beq_vec (x_ml_gmean a) (x_ml_gmean b) && beq_vec (x_ml_gmean_closed a) (x_ml_gmean_closed b)
+  && beq_vec (x_ml_gcov a) (x_ml_gcov b) && beq_vec (x_ml_gtrace a) (x_ml_gtrace b)
+  && beq_vec (x_loo_gmean a) (x_loo_gmean b) && beq_vec (x_loo_gcov a) (x_loo_gcov b).
 
 (* exact rationals for the value goals (ListOps; these involve no gradient) *)
 Definition sel_Li (c : sel_case) : qmat := qinv (s_n c) (s_L c).
@@ -140,21 +141,21 @@ Definition check_sel_obligations (E : exec) (c : sel_case) : list bool :=
   [ (* 0 *) x_ok o;
     (* 1 *) is_lower L && forallb (fun x => negb (Qle_bool x 0)) diagL
             && close_mx n n (t_f c) (qmul L (qtr n n L)) A;
-    (* 2 *) close_vec (t_g c) (x_ml_gmean o) (o_ml_grad_mean c)
-            && close_vec (t_g c) (x_ml_gmean_closed o) (o_ml_grad_mean c);
-    (* 3 *) close_vec (t_g c) (x_ml_gcov o) (o_ml_grad_cov c)
-            && close_vec (t_g c) (x_ml_gtrace o) (o_ml_grad_cov c);
-    (* 4 *) close_vec (t_m c) (x_lmu o) (o_loo_mu c) && close_vec (t_v c) (x_lvar o) (map sqq (o_loo_sig c));
-    (* 5 *) close_vec (t_h c) (x_loo_gmean o) (o_loo_grad_mean c)
-            && close_vec (t_h c) (x_loo_gcov o) (o_loo_grad_cov c);
+    (* 2 *) bclose_vec (t_g c) (x_ml_gmean o) (o_ml_grad_mean c)
+            && bclose_vec (t_g c) (x_ml_gmean_closed o) (o_ml_grad_mean c);
+    (* 3 *) bclose_vec (t_g c) (x_ml_gcov o) (o_ml_grad_cov c)
+            && bclose_vec (t_g c) (x_ml_gtrace o) (o_ml_grad_cov c);
+    (* 4 *) bclose_vec (t_m c) (x_lmu o) (o_loo_mu c) && bclose_vec (t_v c) (x_lvar o) (map sqq (o_loo_sig c));
+    (* 5 *) bclose_vec (t_h c) (x_loo_gmean o) (o_loo_grad_mean c)
+            && bclose_vec (t_h c) (x_loo_gcov o) (o_loo_grad_cov c);
     (* 6 *) negb (s_refit c)
-            || (close_vec (t_m c) (x_lmu o) (r_mu c) && close_vec (t_v c) (x_lvar o) (r_var c)
+            || (bclose_vec (t_m c) (x_lmu o) (r_mu c) && bclose_vec (t_v c) (x_lvar o) (r_var c)
                 && close_vec (t_m c) (o_loo_mu c) (r_mu c)
                 && close_vec (t_v c) (map sqq (o_loo_sig c)) (r_var c));
-    (* 7 *) close_q (t_q c) (x_q1 o) (x_q2 o) && close_q (t_q c) (x_q1 o) (x_q3 o)
+    (* 7 *) bclose2 (t_q c) (x_q1 o) (x_q2 o) && bclose2 (t_q c) (x_q1 o) (x_q3 o)
             && close_q (t_l c) (o_ml c) (o_mlg c) && close_q (t_l c) (o_loo c) (o_loog c);
     (* 8 *) close_q (t_d c * Qabs dt) dt (pd * pd) && negb (Qle_bool dt 0);
-    (* 9 *) negb (s_cross c) || out_eqb (sel_outputs ListExec c) o ].
+    (* 9 *) if s_cross c then out_eqb (sel_outputs ListExec c) o else true ].   (* `if`: branches are lazy under vm_compute *)
 
 Definition check_sel (E : exec) (c : sel_case) : list nat :=
   failing_obligations 0 (check_sel_obligations E c).
